@@ -205,7 +205,10 @@ Section Proofs.
     rewrite (collect_flat _ _ c kv doc (t_fields c) Hflat) in H. cbn [bind] in H.
     unfold defaults_for in H. rewrite (defaults_flat c kv doc _ (t_fields c) Hflat) in H.
     cbn [app] in H.
-    rewrite Hren. rewrite (enum_targets_flat c kv doc (t_fields c) Hflat). cbn [bind apply_enums].
+    assert (Hflat' : forall fd, In fd (enum_order (t_fields c)) -> flat_field c kv doc fd).
+    { intros fd Hin. apply Hflat. unfold enum_order in Hin. apply in_app_or in Hin.
+      destruct Hin as [Hin|Hin]; apply filter_In in Hin; exact (proj1 Hin). }
+    rewrite Hren. rewrite (enum_targets_flat c kv doc (enum_order (t_fields c)) Hflat'). cbn [bind apply_enums].
     unfold from_trusted_map. rewrite (find_tclass_name e cn c Hc).
     destruct (negb (forallb (fun r => alist_has (flat_map (present doc) (t_fields c)) r) (t_required c)));
       [discriminate|].
